@@ -19,6 +19,7 @@ GLOBS = ['ga', 'gb']
 KIDS = ['k1', 'k2', 'k3']
 PORTS = ['pa', 'pb', 'pc', 'pd']
 GLOBDICT_WEIGHT = [0]      # weight of glob ports with a '*' sub-topology in gen_port (set by the callers)
+STAR_TUPLE = [False]       # tuple-path '*' entries and named ports wired into glob children (needs repair F21)
 GLOBS_R = ['gc', 'gd']     # glob nodes whose '*' sub-topology redirects sub-variables (one sub-topology per node)
 ALL_NAMES = COMPS + BRANCH + NEST + VARS + GLOBS + KIDS + PORTS + ['p0', 'p1', 'p2', 'p3'] + GLOBS_R
 
@@ -80,7 +81,7 @@ def gen_port(rng, depth):
             # a node has ONE sub-topology: redirecting ones get nodes of their own, apart from the plain globs
             # (into whose children named ports may be wired)
             base = ups(rng, depth) + [rng.choice(GLOBS_R)]
-        if r < 0.3:
+        if r < 0.3 and STAR_TUPLE[0]:
             # the '*' entry is a tuple path: the children of the node it leads to
             return sch, {'$dict': {'path': None, 'c': [['*', {'$path': base}]]}}
         if r < 0.65:
@@ -147,7 +148,7 @@ def gen_procs(rng, max_procs=3):
             pn2 = [p for p in PORTS if p not in [q[0] for q in ports]][0]
             ports.append([pn2, copy.deepcopy(ports[0][1])])
             topo.append([pn2, copy.deepcopy(topo[0][1])])
-        if rng.random() < 0.3:
+        if rng.random() < 0.3 and STAR_TUPLE[0]:
             # a named port wired into one child of a glob port of the same process, listed before it
             for j, (pn, t) in enumerate(topo):
                 gp = glob_base(t)
@@ -155,7 +156,11 @@ def gen_procs(rng, max_procs=3):
                 if gp is not None and sub is not None and '$node' in sub:
                     pn2 = [p for p in PORTS if p not in [q[0] for q in ports]]
                     if pn2:
-                        ports.insert(j, [pn2[0], copy.deepcopy(sub)])
+                        named = copy.deepcopy(sub)
+                        if len(named['$node']['c']) > 1 and rng.random() < 0.5:
+                            # only some of the child's variables: the others are declared by the glob alone
+                            named['$node']['c'] = named['$node']['c'][:1]
+                        ports.insert(j, [pn2[0], named])
                         topo.insert(j, [pn2[0], {'$path': gp + [rng.choice(KIDS)]}])
                     break
         procs.append({'parent': parent, 'name': 'p%d' % i,
